@@ -1225,6 +1225,85 @@ def tsf_part(run, runner):
                     run.violation("timestepfactor:staged-schedule-misses-steps", "timeStepFactor 2, k 2->4, targetNumSteps 3, 2 stages, step %d: k %r, schedule (at the last updated step %d) prescribes %r" % (t, o["K"], tu, want), rp)
 
 
+def ti_part(run, r, runner, n):
+    """colvarbias_ti attached to a harmonic restraint (writeTISamples): per bin of the variable, the collected samples are the
+    system forces (total force minus the force this bias applied) of the steps at which the variable was in that bin, each
+    step once.  Engine forces are imposed exactly (eforce on the single atom of a distanceZ variable)."""
+    cases = []
+    for k in range(n):
+        same = r.random() < 0.5
+        c = {"same": same, "k": r.choice([0.0, 0.5, 1.0, 2.0]), "center": V.dyadic(r, 0, 4, bits=2), "seg": r.choice(["none", "none", "B", "R"]),
+             "fmt": r.choice(["text", "binary"]), "steps": []}
+        for s_ in range(r.randint(4, 9)):
+            c["steps"].append((V.dyadic(r, -0.5, 4.5, bits=3), V.dyadic(r, -4, 4, bits=2)))
+        cases.append(c)
+    scn = []
+    for k, c in enumerate(cases):
+        conf = ["config EOF", "colvar {", "  name v0", "  width 1.0", "  lowerBoundary 0.0", "  upperBoundary 4.0", "  distanceZ {",
+                "    main { atomNumbers 1 }", "    ref { dummyAtom (0,0,0) }", "    axis (0,0,1)", "    oneSiteTotalForce on", "  }", "}",
+                "harmonic {", "  name r", "  colvars v0", "  centers %r" % c["center"], "  forceConstant %r" % c["k"], "  writeTISamples on", "}", "EOF"]
+        L = ["echo CASE %d" % k, "natoms 1", "totalforces 1", "samestep %d" % (1 if c["same"] else 0), "includecv 1", "new"] + conf + [
+             "show atomf 0 cv 0 energy 0 bias 0"]
+        ev = []
+        for i, (x, f) in enumerate(c["steps"]):
+            L += ["pos 1 0 0 %s" % hx(x), "eforce 1 0 0 %s" % hx(f), "step", "tidump"]
+            ev.append(("S", x, f))
+            if c["seg"] != "none" and 0 < i < len(c["steps"]) - 1 and r.random() < 0.35:
+                if c["seg"] == "B":
+                    L += ["runboundary", "step", "tidump"]
+                else:
+                    fn = os.path.join(runner.scratch, "ti%d_%d.state" % (k, i))
+                    L += ["save %s %s" % (c["fmt"], fn), "fresh"] + conf + ["load %s" % fn, "step", "tidump"]
+                ev.append((c["seg"], x, f))
+        L.append("echo END %d" % k)
+        c["events"] = ev
+        c["scenario"] = L
+        scn += L
+    rc2, iout, e2 = V.run_lines(runner.unit, scn, cwd=runner.scratch)
+    # parse TID lines per case
+    cur = None
+    got = {}
+    okc = {}
+    for l in iout:
+        if l.startswith("echo CASE"):
+            cur = int(l.split()[2]); got[cur] = []; okc[cur] = True
+        elif cur is not None and l.startswith("TID "):
+            got[cur].append([(int(t.split(":")[0]), float.fromhex(t.split(":")[1])) for t in l.split()[3:]])
+        elif cur is not None and (l.startswith("CONFIG") or l.startswith("LOAD") or l.startswith("SAVE")) and "err=ok" not in l:
+            okc[cur] = False
+    for k, c in enumerate(cases):
+        run.dist("colvarbias_ti:%s" % ("same-step" if c["same"] else "lagged"))
+        g = got.get(k, [])
+        rp = {"kind": "ti", "case": {kk: vv for kk, vv in c.items() if kk != "scenario"}, "scenario": c["scenario"]}
+        if not okc.get(k, False) or len(g) != len(c["events"]):
+            run.mismatch("colvarbias_ti", rp["case"], len(g), "%d dumps" % len(c["events"]))
+            continue
+        cnt = [0] * 4
+        sm = [0.0] * 4
+        binof = lambda x: int(math.floor(x)) if 0.0 <= x < 4.0 else None
+        prev = None          # (bin, force) of the previous NEW step (lagged mode)
+        bad = False
+        for j, (typ, x, f) in enumerate(c["events"]):
+            if typ == "S" and j > 0:
+                if c["same"]:
+                    b = binof(x)
+                    if b is not None:
+                        cnt[b] += 1; sm[b] += f
+                else:
+                    pb, pf = prev
+                    if pb is not None:
+                        cnt[pb] += 1; sm[pb] += pf
+            if typ == "S":
+                prev = (binof(x), f)
+            have = g[j]
+            if [h[0] for h in have] != cnt or not all(close(h[1], s_) for h, s_ in zip(have, sm)):
+                sig = "ti-estimator:samples" if typ == "S" else ("ti-estimator:run-boundary-step-sampled-twice" if typ == "B" else "ti-estimator:restart")
+                run.violation(sig, "%s total forces, event %d (%s, value %r, engine force %r): per-bin (count, sum of system forces) %r; the steps so far give counts %r sums %r" % ("same-step" if c["same"] else "lagged", j, typ, x, f, have, cnt, sm), rp)
+                bad = True
+                break
+        run.count("ti%d" % k, sum(cnt) >= 3)
+
+
 def setup():
     V.extract_model("C06", EXTRACT, DRIVER, ["ocaml/fops.ml"])
     V.build_prog("c06unit", PROGS["c06unit"])
@@ -1324,6 +1403,7 @@ def check(run):
     hist_part(run, r, runner, 40 if quick else 2500)
     manifold_part(run, r, runner, 60 if quick else 3000)
     tsf_part(run, runner)
+    ti_part(run, r, runner, 40 if quick else 1500)
     run.cov["correspondence"].update({"scenarios": len(cases), "regression_scenarios": len(wit)})
 
 
